@@ -57,10 +57,15 @@ pub fn install_panic_hook() {
 pub fn guard<T, F: FnOnce() -> T>(f: F) -> Result<T, String> {
     match catch_unwind(AssertUnwindSafe(f)) {
         Ok(v) => Ok(v),
-        Err(_) => Err(LAST_PANIC
-            .lock()
-            .unwrap_or_else(|e| e.into_inner())
-            .take()
-            .unwrap_or_else(|| "panic (no message)".to_string())),
+        Err(_) => {
+            let msg = LAST_PANIC.lock().unwrap_or_else(|e| e.into_inner()).take().unwrap_or_else(|| "panic (no message)".to_string());
+            // a subject that fails because the scratch file system is full says nothing about the property: the
+            // environment of the check is broken (machinery failure, exit 2), never a verdict
+            if msg.contains("No space left on device") || msg.contains("StorageFull") || msg.contains("Too many open files") {
+                eprintln!("MACHINERY: the scratch file system is exhausted ({})", msg);
+                std::process::exit(2);
+            }
+            Err(msg)
+        }
     }
 }
